@@ -266,4 +266,144 @@ theorem InnermostL.cand (off id : Nat) : ∀ ks, InnermostL off id ks → CandL 
     · exact Or.inr (InnermostL.cand off id ks h)
 end
 
+
+/-! ## innermost-node search, without any hypothesis on the tree
+
+`Reach off id t`: `id` is a node of `t` that can answer, whose own span AND the spans of all nodes above it
+contain `off` (on a properly nested tree that is just "its span contains `off`", see `reach_iff_cand`). -/
+
+mutual
+def Reach (off id : Nat) : ITree → Prop
+  | .leaf lo hi i => i = id ∧ lo ≤ off ∧ off < hi
+  | .node span self kids => inSpan span off = true ∧ (self = some id ∨ ReachL off id kids)
+def ReachL (off id : Nat) : List ITree → Prop
+  | [] => False
+  | k :: ks => Reach off id k ∨ ReachL off id ks
+end
+
+mutual
+/-- `id` is reachable at `off` and no node below it is -/
+def InnermostR (off id : Nat) : ITree → Prop
+  | .leaf lo hi i => i = id ∧ lo ≤ off ∧ off < hi
+  | .node span self kids =>
+    inSpan span off = true ∧ ((self = some id ∧ ∀ id', ¬ ReachL off id' kids) ∨ InnermostRL off id kids)
+def InnermostRL (off id : Nat) : List ITree → Prop
+  | [] => False
+  | k :: ks => InnermostR off id k ∨ InnermostRL off id ks
+end
+
+mutual
+theorem searchI_none_reach (off : Nat) : ∀ t, searchI off t = none → ∀ id, ¬ Reach off id t
+  | .leaf lo hi i, h, id => by
+    unfold searchI at h
+    split at h
+    · simp at h
+    · rename_i hs
+      intro hc
+      simp only [Reach] at hc
+      exact hs ((inSpan_some lo hi off).2 ⟨hc.2.1, hc.2.2⟩)
+  | .node span self kids, h, id => by
+    unfold searchI at h
+    intro hc
+    simp only [Reach] at hc
+    split at h
+    · split at h
+      · simp at h
+      · rename_i hk
+        rcases hc.2 with hs | hc'
+        · rw [h] at hs; cases hs
+        · exact searchKidsI_none_reach off kids hk id hc'
+    · rename_i hs
+      exact hs hc.1
+theorem searchKidsI_none_reach (off : Nat) : ∀ ks, searchKidsI off ks = none → ∀ id, ¬ ReachL off id ks
+  | [], _, id => by simp [ReachL]
+  | k :: ks, h, id => by
+    unfold searchKidsI at h
+    split at h
+    · simp at h
+    · rename_i hk
+      intro hc
+      simp only [ReachL] at hc
+      rcases hc with hc | hc
+      · exact searchI_none_reach off k hk id hc
+      · exact searchKidsI_none_reach off ks h id hc
+end
+
+mutual
+theorem searchI_sound_reach (off id : Nat) : ∀ t, searchI off t = some id → InnermostR off id t
+  | .leaf lo hi i, h => by
+    unfold searchI at h
+    split at h
+    · rename_i hs
+      have := (inSpan_some lo hi off).1 hs
+      simp at h
+      simp [InnermostR, h, this]
+    · simp at h
+  | .node span self kids, h => by
+    unfold searchI at h
+    simp only [InnermostR]
+    split at h
+    · rename_i hs
+      refine ⟨hs, ?_⟩
+      split at h
+      · rename_i r hr
+        simp at h; subst h
+        exact Or.inr (searchKidsI_sound_reach off r kids hr)
+      · rename_i hk
+        exact Or.inl ⟨h, fun id' => searchKidsI_none_reach off kids hk id'⟩
+    · simp at h
+theorem searchKidsI_sound_reach (off id : Nat) : ∀ ks, searchKidsI off ks = some id → InnermostRL off id ks
+  | [], h => by simp [searchKidsI] at h
+  | k :: ks, h => by
+    unfold searchKidsI at h
+    simp only [InnermostRL]
+    split at h
+    · rename_i r hr
+      simp at h; subst h
+      exact Or.inl (searchI_sound_reach off r k hr)
+    · exact Or.inr (searchKidsI_sound_reach off id ks h)
+end
+
+mutual
+theorem InnermostR.reach (off id : Nat) : ∀ t, InnermostR off id t → Reach off id t
+  | .leaf _ _ _, h => by simpa [InnermostR, Reach] using h
+  | .node span self kids, h => by
+    simp only [InnermostR] at h
+    simp only [Reach]
+    rcases h with ⟨hs, ⟨h1, _⟩ | h2⟩
+    · exact ⟨hs, Or.inl h1⟩
+    · exact ⟨hs, Or.inr (InnermostRL.reach off id kids h2)⟩
+theorem InnermostRL.reach (off id : Nat) : ∀ ks, InnermostRL off id ks → ReachL off id ks
+  | [], h => by simp [InnermostRL] at h
+  | k :: ks, h => by
+    simp only [InnermostRL] at h
+    simp only [ReachL]
+    rcases h with h | h
+    · exact Or.inl (InnermostR.reach off id k h)
+    · exact Or.inr (InnermostRL.reach off id ks h)
+end
+
+mutual
+/-- on a properly nested tree "reachable" is just "its span contains the offset" -/
+theorem reach_iff_cand (off id : Nat) : ∀ t, NestedI t → (Reach off id t ↔ Cand off id t)
+  | .leaf _ _ _, _ => by simp [Reach, Cand]
+  | .node span self kids, hn => by
+    simp only [NestedI] at hn
+    simp only [Reach, Cand]
+    rw [reachL_iff_candL off id kids hn.2]
+    constructor
+    · rintro ⟨hs, h | h⟩
+      · exact Or.inl ⟨h, hs⟩
+      · exact Or.inr h
+    · rintro (⟨h, hs⟩ | h)
+      · exact ⟨hs, Or.inl h⟩
+      · exact ⟨hn.1 off id h, Or.inr h⟩
+theorem reachL_iff_candL (off id : Nat) : ∀ ks, NestedIL ks → (ReachL off id ks ↔ CandL off id ks)
+  | [], _ => by simp [ReachL, CandL]
+  | k :: ks, hn => by
+    simp only [NestedIL] at hn
+    simp only [ReachL, CandL]
+    rw [reach_iff_cand off id k hn.1, reachL_iff_candL off id ks hn.2]
+end
+
 end Abra.SpanTree
